@@ -22,6 +22,7 @@ fn check_slice(ctx: &mut Ctx, s: &[u8]) {
         ctx.nontrivial();
     }
     let lk = if s.is_empty() { "empty" } else { "" };
+    ctx.outcome(&(s.len(), s.first().map(|b| b & 0x80 != 0)));
     ctx.transitions += 3;
     match guard(|| arr_to_u64(s)) {
         Err(p) => ctx.violation(&format!("arr_to_u64/panic{}", lk), &d, &p),
